@@ -421,6 +421,24 @@ def r7(db, rep):
             rep.ok("R7-binary-safe", key, facts.loc(f), "written only by %d text-producing call(s)" % n_w)
 
 
+def masked_pointer_vars(f):
+    """{variable: defining node} for locals that receive `... & 0x3fff` (a decoded compression pointer), whether by
+    assignment or as their initialiser"""
+    out = {}
+
+    def masked(e):
+        return any(y["k"] == "BinaryOperator" and y.get("op") == "&" and 0x3fff in (facts.cval(y["c"][0]), facts.cval(y["c"][1]))
+                   for y in facts.walk(e))
+    for x in facts.fn_nodes(f):
+        if x["k"] == "BinaryOperator" and x.get("op") == "=":
+            l = strip(x["c"][0])
+            if l["k"] == "DeclRefExpr" and l.get("var") and masked(x["c"][1]):
+                out[l["var"]] = x
+        elif x["k"] == "VarDecl" and x.get("c") and x.get("var") and masked(x["c"][0]):
+            out[x["var"]] = x
+    return out
+
+
 def r8(db, rep):
     """Compression pointers count from the first octet of the message; every index libtins keeps (section starts,
     thresholds, positions in records_data_) counts from the first octet after the header.  A variable assigned
@@ -436,13 +454,7 @@ def r8(db, rep):
         return
     decoders = 0
     for f in sorted(dns_functions(db), key=lambda x: x["id"]):
-        ptrvars = {}
-        for x in facts.fn_nodes(f):
-            if x["k"] == "BinaryOperator" and x.get("op") == "=":
-                l = strip(x["c"][0])
-                if l["k"] == "DeclRefExpr" and any(y["k"] == "BinaryOperator" and y.get("op") == "&" and
-                                                   0x3fff in (facts.cval(y["c"][0]), facts.cval(y["c"][1])) for y in facts.walk(x["c"][1])):
-                    ptrvars[l["var"]] = x
+        ptrvars = masked_pointer_vars(f)
         if not ptrvars:
             continue
         decoders += 1
@@ -531,10 +543,8 @@ def r8_boundary(db, rep, hdr):
                 if not inner:
                     cand = (x, real)
     ptrvar = None
-    for x in facts.fn_nodes(f):
-        if x["k"] == "BinaryOperator" and x.get("op") == "=" and strip(x["c"][0])["k"] == "DeclRefExpr" and \
-                any(y["k"] == "BinaryOperator" and y.get("op") == "&" and 0x3fff in (facts.cval(y["c"][0]), facts.cval(y["c"][1])) for y in facts.walk(x["c"][1])):
-            ptrvar = strip(x["c"][0])["var"]
+    for v_ in masked_pointer_vars(f):
+        ptrvar = v_
     if cand is None or not thr or ptrvar is None:
         rep.analysis_broken("update_dname: the guard of the pointer re-encoding was not recognised")
         return
